@@ -4,6 +4,7 @@ CONSTANTS
   MaxLen = 5
   NB = 30
   Alphabet <- AlphaFull
+  EmitMod = 16
 INVARIANT NoCrash
 INVARIANT ErrorLineInRange
 INVARIANT ErrorAtLastLine
